@@ -938,8 +938,16 @@ class InputFinalityMonitor(Monitor):
                         inputs.add(snap.nodes[src][1])
                 self.count("successes_checked")
                 actor_self = f"step:{pid}"
+                pending_window = []
+                read_digest = {}
+                for rp, rd in w.get("reads", []):
+                    read_digest.setdefault(rp, rd)
                 for ev in world.log[w["start"] : w["end"]]:
                     if ev[2] == "fs" and ev[4] in ("write", "remove", "rename", "rmdir"):
+                        if ev[4] == "write" and read_digest.get(ev[5], ev[6]) == ev[6]:
+                            # rewritten with the very content the step read (or a file it
+                            # never read): the content was kept
+                            continue
                         if ev[5] in inputs and ev[3] != actor_self:
                             key = "succeeded-despite-change"
                             # known finding F8: a sibling consumer failed on the same change
@@ -954,14 +962,14 @@ class InputFinalityMonitor(Monitor):
                                     key = "succeeded-despite-change:hash-refreshed-by-failed-sibling"
                                     self.refreshed.add(label)
                                     break
-                            self.violate(
+                            pending_window.append((
                                 "R-final/window",
                                 "input-changed-while-running",
                                 f"{label} recorded as SUCCEEDED although its input {ev[5]} was "
                                 f"changed ({ev[4]} by {ev[3]}) while its command ran",
                                 key,
-                            )
-                self.success.append((label, pid, sorted(inputs), w.get("reads", [])))
+                            ))
+                self.success.append((label, pid, sorted(inputs), w.get("reads", []), pending_window))
 
     def on_build_end(self, world, result):
         """Every content a finally-SUCCEEDED step read equals the final content of that input."""
@@ -982,12 +990,19 @@ class InputFinalityMonitor(Monitor):
                 recorded[snap.nodes[i][1]] = _hex_digest(hj)
                 file_state[snap.nodes[i][1]] = st_
         last = {}
-        for label, pid, inputs, reads in self.success:
-            last[label] = (pid, inputs, reads)
-        for label, (pid, inputs, reads) in last.items():
+        for label, pid, inputs, reads, pending_window in self.success:
+            if label in last and last[label][3]:
+                world.count("probe.success_superseded_by_rerun")
+            last[label] = (pid, inputs, reads, pending_window)
+        for label, (pid, inputs, reads, pending_window) in last.items():
             st = final_state.get(label)
             if st is None or st[0] != SUCCEEDED or st[1]:
+                if pending_window:
+                    world.count("probe.success_invalidated_before_end")
                 continue
+            # only a success that still stands at the end of the build is judged
+            for v in pending_window:
+                self.violate(*v)
             for relpath, d in reads:
                 if relpath not in inputs:
                     continue
